@@ -6,9 +6,10 @@ from replay.C01 import native
 
 def replay(name, e, src_root):
     req = {'model': e.get('model')}
-    if 'native-sweep' in name:
-        # the sweep of the thorough tier leaves out the one witness class that is a recorded known finding (two different (user, path)
-        # pairs with equal concatenation: obligation C17.key.injective, printed as KNOWN-FINDING); everything else is reported
+    if 'key.injective' not in name:
+        # only the obligation of the recorded known finding (C17.key.injective: two different (user, path) pairs with equal
+        # concatenation) is replayed with that witness class; for every other obligation - and for the sweep of the thorough tier - the
+        # battery leaves it out, so that it is never counted as THEIR failing input.  Everything else the battery finds is reported.
         req['skip_known'] = True
     out = native(req, src_root, script='native_c17.py')
     path = write_replay(name, e, note='native replay: real shelve cache and read_cache in a temp directory', extra={'request': req, 'native': out})
